@@ -1742,7 +1742,7 @@ static void dump_addrinfo(sb_t *sb, const struct ares_addrinfo *ai)
         port = ntohs(in6.sin6_port);
       }
     }
-    sb_printf(sb, "%d:%s:%u:%d",
+    sb_printf(sb, nd->ai_family == AF_INET6 ? "%d:[%s]:%u:%d" : "%d:%s:%u:%d",
               nd->ai_family == AF_INET ? 4 : (nd->ai_family == AF_INET6 ? 6 : nd->ai_family),
               a, port, nd->ai_ttl);
     if (nd->ai_socktype || nd->ai_protocol || nd->ai_flags) {
